@@ -4,7 +4,9 @@
 //                              that the model's `sign` relies on (CSR signature, option loop with the
 //                              request validators, template, modifiers, certificate validators,
 //                              enforcers, CAS signing, store)
-//   src fn=jwk|x5c|oidc|nebula|k8ssa   the elements of the []SignOption literal AuthorizeSign returns
+//   src fn=allsign             every AuthorizeSign implementation of authority/provisioner and whether its
+//                              option list carries the provisioner-extension modifier / template options
+//   src fn=jwk|x5c|oidc|nebula|k8ssa|acme|scep   the elements of the []SignOption literal AuthorizeSign returns
 //
 // Each line's implementation output is the token sequence found in the source; the Lean driver
 // prints the table the theorems `sign_phases_in_source` / `options_*` are stated over
@@ -20,6 +22,7 @@ import (
 	"go/token"
 	"os"
 	"path/filepath"
+	"sort"
 	"strings"
 
 	c "verif/harness/common"
@@ -129,35 +132,128 @@ func optToken(e ast.Expr) string {
 	return "?"
 }
 
+// optionTokens finds the one option list an AuthorizeSign builds: a `[]SignOption{…}` literal (returned
+// or assigned) or the arguments of `append(so, …)` in a return statement.
+func optionTokens(fd *ast.FuncDecl) ([]string, string) {
+	var lits [][]string
+	isOptLit := func(e ast.Expr) (*ast.CompositeLit, bool) {
+		lit, ok := e.(*ast.CompositeLit)
+		if !ok {
+			return nil, false
+		}
+		at, ok := lit.Type.(*ast.ArrayType)
+		return lit, ok && exprString(at.Elt) == "SignOption"
+	}
+	ast.Inspect(fd.Body, func(n ast.Node) bool {
+		switch x := n.(type) {
+		case *ast.CompositeLit:
+			if lit, ok := isOptLit(x); ok {
+				var toks []string
+				for _, el := range lit.Elts {
+					toks = append(toks, optToken(el))
+				}
+				lits = append(lits, toks)
+				return false
+			}
+		case *ast.ReturnStmt:
+			if len(x.Results) == 2 {
+				if call, ok := x.Results[0].(*ast.CallExpr); ok {
+					if id, ok := call.Fun.(*ast.Ident); ok && id.Name == "append" && len(call.Args) > 1 {
+						toks := []string{"+" + exprString(call.Args[0])}
+						for _, el := range call.Args[1:] {
+							toks = append(toks, optToken(el))
+						}
+						lits = append(lits, toks)
+						return false
+					}
+				}
+			}
+		}
+		return true
+	})
+	// an early `so := []SignOption{}`-style accumulator next to the final append is not the list
+	var full [][]string
+	for _, l := range lits {
+		if len(l) > 1 || len(lits) == 1 {
+			full = append(full, l)
+		}
+	}
+	if len(full) != 1 {
+		return nil, fmt.Sprintf("error:%d option lists", len(full))
+	}
+	return full[0], ""
+}
+
 func optionList(file, recv string) string {
 	fd, err := findFunc(file, recv, "AuthorizeSign")
 	if err != nil {
 		return "error:" + err.Error()
 	}
-	var lits [][]string
-	ast.Inspect(fd.Body, func(n ast.Node) bool {
-		ret, ok := n.(*ast.ReturnStmt)
-		if !ok || len(ret.Results) != 2 {
-			return true
-		}
-		lit, ok := ret.Results[0].(*ast.CompositeLit)
-		if !ok {
-			return true
-		}
-		if at, ok := lit.Type.(*ast.ArrayType); !ok || exprString(at.Elt) != "SignOption" {
-			return true
-		}
-		var toks []string
-		for _, el := range lit.Elts {
-			toks = append(toks, optToken(el))
-		}
-		lits = append(lits, toks)
-		return true
-	})
-	if len(lits) != 1 {
-		return fmt.Sprintf("error:%d option literals", len(lits))
+	toks, e := optionTokens(fd)
+	if e != "" {
+		return e
 	}
-	return strings.Join(lits[0], " ")
+	return strings.Join(toks, " ")
+}
+
+// allSign scans every non-test file of authority/provisioner for methods named AuthorizeSign and says,
+// per receiver type, whether the option list it builds contains the provisioner-extension modifier
+// and the template options: "<Recv>:ext+tpl", "<Recv>:ext", "<Recv>:self" (only the provisioner
+// itself), "<Recv>:none" (no list: refuses or delegates).
+func allSign() string {
+	dir := filepath.Join(repoRoot(), "authority/provisioner")
+	ents, err := os.ReadDir(dir)
+	if err != nil {
+		return "error:" + err.Error()
+	}
+	var out []string
+	for _, ent := range ents {
+		name := ent.Name()
+		if !strings.HasSuffix(name, ".go") || strings.HasSuffix(name, "_test.go") || strings.HasPrefix(name, "export_verif") {
+			continue
+		}
+		fset := token.NewFileSet()
+		f, err := parser.ParseFile(fset, filepath.Join(dir, name), nil, 0)
+		if err != nil {
+			return "error:" + err.Error()
+		}
+		for _, d := range f.Decls {
+			fd, ok := d.(*ast.FuncDecl)
+			if !ok || fd.Name.Name != "AuthorizeSign" || fd.Recv == nil || len(fd.Recv.List) != 1 || fd.Body == nil {
+				continue
+			}
+			t := fd.Recv.List[0].Type
+			if st, ok := t.(*ast.StarExpr); ok {
+				t = st.X
+			}
+			recv := exprString(t)
+			toks, e := optionTokens(fd)
+			kind := "none"
+			if e == "" {
+				has := func(x string) bool {
+					for _, t := range toks {
+						if t == x {
+							return true
+						}
+					}
+					return false
+				}
+				switch {
+				case has("newProvisionerExtensionOption") && has("templateOptions"):
+					kind = "ext+tpl"
+				case has("newProvisionerExtensionOption"):
+					kind = "ext"
+				case len(toks) == 1:
+					kind = "self"
+				default:
+					kind = "noext"
+				}
+			}
+			out = append(out, recv+":"+kind)
+		}
+	}
+	sort.Strings(out)
+	return strings.Join(out, " ")
 }
 
 func derive(fn string) string {
@@ -174,6 +270,12 @@ func derive(fn string) string {
 		return optionList("authority/provisioner/nebula.go", "Nebula")
 	case "k8ssa":
 		return optionList("authority/provisioner/k8sSA.go", "K8sSA")
+	case "acme":
+		return optionList("authority/provisioner/acme.go", "ACME")
+	case "scep":
+		return optionList("authority/provisioner/scep.go", "SCEP")
+	case "allsign":
+		return allSign()
 	}
 	return "error:unknown"
 }
@@ -189,7 +291,7 @@ func main() {
 		os.Exit(2)
 	}
 	defer o.Close()
-	fns := []string{"signX509", "jwk", "x5c", "oidc", "nebula", "k8ssa"}
+	fns := []string{"signX509", "jwk", "x5c", "oidc", "nebula", "k8ssa", "acme", "scep", "allsign"}
 	if *replay != "" {
 		fns = nil
 		data, _ := os.ReadFile(*replay)
